@@ -464,6 +464,10 @@ func (w *PointsWriter) routeAndMapOriginRows(
 				if w.isPartialErr(err) {
 					partialErr = err
 					if isDropRow {
+						// createMeasurement has made this measurement the "previous" one, but the row is dropped
+						// before updateShardGroupAndShardKey resolved its shard key: invalidate the cached
+						// routing state, or the next row of this measurement reuses the shard key of another one.
+						ctx.aliveShardIdxes = ctx.aliveShardIdxes[:0]
 						dropped++
 						continue
 					}
